@@ -64,7 +64,7 @@ LEVEL_MODS = [MOD_NAMES, SUBMOD_NAMES, ["e", "k"], ["leaf"]]
 # sibling modules whose names differ only by a TRAILING underscore (or leading on one / trailing on the other) are distinct
 # modules for both agents: the inspector's documented "same module" rule only ignores LEADING underscores, so every pair
 # below stays distinct after lstrip("_")
-LEVEL_TWINS = [[("a", "a_"), ("_u", "u_"), ("b", "b_")], [("c", "c_"), ("_d", "d_")], [("e", "e_"), ("_k", "k_")], [("leaf", "leaf_")]]
+LEVEL_TWINS = [[("a", "a_"), ("_u", "u_"), ("b", "b_")], [("c", "c_"), ("_d", "d_")], [("e", "e_"), ("_x", "x_")], [("leaf", "leaf_")]]
 LEVEL_PKGS = [SUBPKG_NAMES, ["deep", "_dp"], ["core"]]
 LEVEL_MAX_PLAIN = [2, 2, 1, 1]
 LEVEL_SUBPKG_PCT = [40, 55, 40]
